@@ -2926,6 +2926,19 @@ class QuicConnection:
             if value is not None:
                 setattr(self, "_remote_" + param, value)
 
+        # Streams opened for 0-RTT with the remembered limits are now subject
+        # to the limits the peer advertised for this connection.
+        if not from_session_ticket:
+            for stream in self._streams.values():
+                if stream_is_client_initiated(stream.stream_id) != self._is_client:
+                    continue
+                if stream_is_unidirectional(stream.stream_id):
+                    max_stream_data_remote = self._remote_max_stream_data_uni
+                else:
+                    max_stream_data_remote = self._remote_max_stream_data_bidi_remote
+                if max_stream_data_remote > stream.max_stream_data_remote:
+                    stream.max_stream_data_remote = max_stream_data_remote
+
     def _serialize_transport_parameters(self) -> bytes:
         quic_transport_parameters = QuicTransportParameters(
             ack_delay_exponent=self._local_ack_delay_exponent,
